@@ -1411,7 +1411,8 @@ def run(chk, replay=None):
                 for ln in open(os.path.join(cdir, f)):
                     ln = ln.strip()
                     if ln and not ln.startswith("#"):
-                        cases.append((ln.split()[0], ln, ln, None, {"corpus": f}))
+                        k = ln.split()[0]       # (a history's model line needs the XRFF documents: built below)
+                        cases.append((k, ln, None if k == "hist" else ln, None, {"corpus": f}))
         ncsv = 1800 if quick else 14000
         fams = ["general"] * 10 + ["clear"] * 3 + ["years"] * 2 + ["capsrow"] * 2 + ["unamb"] * 3 + ["unambq"] * 5
         for i in range(ncsv):
